@@ -883,6 +883,9 @@ class Ctx:
         def body():
             return call(step["fn"], **args)
 
+        observed = None
+        if self.prop == "C17" and self.cfg.get("line_observer"):
+            body, observed = self._line_observed(body)
         fault = self.prepare_faults(step, out_step, body)
         self._pending_res = None
         self._held_res = None
@@ -891,6 +894,11 @@ class Ctx:
         outcome = self._guarded(step, fault, body, store=step.get("out"))
         cur_used = self._last_used
         after = "call step %d (%s, outcome %s)" % (sid, step["fn"], outcome[0])
+        if observed:
+            raise Violation("C17", "I-RNG", {
+                "what": "the process-wide NumPy generator differs from the reference model WHILE the call is in flight (seen by a "
+                        "concurrent reader -- another caller thread drawing from np.random; the call may restore it before it returns)",
+                "fn": step["fn"], "cola_line": observed[0], "line_event": observed[1], "rng_touched_by": world.RNG_TOUCH[-6:]})
         deferred = None
         if self.prop == "C18":
             # ONE forked observer per step: result digest (if it contains operators) + all invariants
@@ -923,6 +931,42 @@ class Ctx:
                 raise Violation(*deferred)
         else:
             self.check_invariants(sid, after)
+
+    def _line_observed(self, body):
+        """Continuous observer: after EVERY source line the call executes inside cola/ the process-wide generator must be in the
+        reference model's state (exhaustive over the pre-emption points of this execution: what a second caller thread that
+        only draws from np.random could see).  Pure reads; the allocation-fault seam is paused while the observer looks."""
+        import sys
+        found = []
+        cola_dir = world.REPO.rstrip("/") + "/cola/"
+        model, stats = self.model, self.stats
+
+        def local(frame, event, arg):
+            if event == "line" and not found:
+                ALLOC.pause()
+                try:
+                    stats["observer_line_events"] += 1
+                    if not model.quick_sync():
+                        found.extend(["%s:%d" % (frame.f_code.co_filename[len(cola_dir) - 5:], frame.f_lineno),
+                                      stats["observer_line_events"]])
+                finally:
+                    ALLOC.resume()
+            return local
+
+        def glob(frame, event, arg):
+            if event == "call" and frame.f_code.co_filename.startswith(cola_dir) and frame.f_code.co_name != "<module>":
+                return local
+            return None
+
+        def wrapped():
+            old = sys.gettrace()
+            sys.settrace(glob)
+            try:
+                return body()
+            finally:
+                sys.settrace(old)
+
+        return wrapped, found
 
     def hold_result(self, res, label):
         """The caller keeps what a call returned: those arrays are caller-owned from then on (I-INPUT)."""
@@ -1378,8 +1422,8 @@ def recipe_refs_ok(r, pool):
 def run_program(program):
     """Execute one simulated history; returns a JSON-able result record."""
     if "threads" in program:  # caller threads under the baton scheduler (sim/threads.py)
-        from . import threads
-        return threads.run(program)
+        from . import threads, threads18
+        return (threads18 if program.get("property") == "C18" else threads).run(program)
     ctx = Ctx(program)
     status, viol, err = "ok", None, None
     try:
